@@ -29,6 +29,8 @@ import QEProofs.Lemmas.C09Forms
 import QEProofs.Lemmas.C09Feasible
 import QEProofs.Lemmas.C09Optimal
 import QEProofs.Lemmas.C09Unique
+import QEProofs.Lemmas.C09Given
+import QEProofs.Lemmas.C09OptimalProd
 namespace QE.C09
 set_option linter.unusedSectionVars false
 
@@ -595,6 +597,78 @@ example : ((toSaPair exProd2).toOption.bind fun e => (toProduct e).toOption).map
     = some (2, 2, [[.ninf, .fin 1], [.fin 0, .fin 3]]) := by decide
 
 
+
+/-! ## the operators in terms of the pairs AS GIVEN to the constructor (any order) -/
+
+section given
+variable {K : Type} [LinearOrder K] [Zero K] [One K] [Add K] [Mul K]
+
+/-- **Bellman operator, user level (SA-pair form, pairs in any order).** Let the constructor
+    accept arrays `R, Q, s_indices = S, a_indices = A` (consistent lengths, states `< n`) and
+    return `d`. Then for every `v` and every state `i < n` there is a **given** pair `k`
+    (`k < L`, `S[k] = i`) such that `Tv[i] = R[k] + β·Q[k]·v`, `σ[i] = A[k]`, and no given pair
+    of state `i` has a larger value: `Tv[i]` is the maximum over the feasible actions of `i` and
+    the greedy action attains it — whatever the order in which the pairs were supplied (no row
+    mix-up by the re-sort). `givenVal β R Q v k = R[k] + β·Q[k]·v` (`-inf` if `R[k] = -inf`);
+    all reads are guarded by `k < L`. -/
+theorem accepted_bellman_given (n : Nat) (beta : K) (R : List (Ext K)) (Q : List (List K)) (S A : List Nat)
+    (hR : R.length = Q.length) (hSl : S.length = Q.length) (hAl : A.length = Q.length)
+    (hS : ∀ s ∈ S, s < n) (d : SaDDP K) (hd : mkSa n beta R Q S A = .ok d)
+    (v : List K) (i : Nat) (hi : i < n) :
+    ∃ k act, k < S.length ∧ S[k]? = some i ∧ A[k]? = some act ∧
+      (d.bellman v).1[i]? = some (givenVal beta R Q v k) ∧ (d.bellman v).2[i]? = some act ∧
+      ∀ k', k' < S.length → S[k']? = some i → ¬ givenVal beta R Q v k < givenVal beta R Q v k' :=
+  accepted_bellman_given' n beta R Q S A hR hSl hAl hS d hd v i hi
+
+/-- **RQ_sigma / controlled_mc / T_sigma, user level (pairs in any order, pairwise distinct).**
+    For a policy `σ` of length `n` that picks, in every state, the action of some given pair,
+    `RQ_sigma` returns rows, and row `i` of `R_σ` / `Q_σ` is the reward / transition row **of the
+    given pair `(i, σ[i])`** — for every given index `k` with `S[k] = i`, `A[k] = σ[i]`. -/
+theorem accepted_rqSigma_given (n : Nat) (beta : K) (R : List (Ext K)) (Q : List (List K)) (S A : List Nat)
+    (hR : R.length = Q.length) (hSl : S.length = Q.length) (hAl : A.length = Q.length)
+    (hS : ∀ s ∈ S, s < n)
+    (hnodup : ∀ k k', k < S.length → k' < S.length → S[k]? = S[k']? → A[k]? = A[k']? → k = k')
+    (d : SaDDP K) (hd : mkSa n beta R Q S A = .ok d)
+    (sigma : List Nat) (hsl : sigma.length = n)
+    (hsig : ∀ i, i < n → ∃ k, k < S.length ∧ S[k]? = some i ∧ A[k]? = some (sigma.getD i 0)) :
+    ∃ (R' : List (Ext K)) (Q' : List (List K)), d.rqSigma sigma = some (R', Q') ∧
+      R'.length = n ∧ Q'.length = n ∧
+      ∀ i k, i < n → k < S.length → S[k]? = some i → A[k]? = some (sigma.getD i 0) →
+        R'[i]? = some (R.getD k .ninf) ∧ Q'[i]? = some (Q.getD k []) :=
+  accepted_rqSigma_given' n beta R Q S A hR hSl hAl hS hnodup d hd sigma hsl hsig
+
+/-- … hence `T_σ v` has in state `i` the value `R[k] + β·Q[k]·v` of the given pair `(i, σ[i])` -/
+theorem accepted_tSigma_given (n : Nat) (beta : K) (R : List (Ext K)) (Q : List (List K)) (S A : List Nat)
+    (hR : R.length = Q.length) (hSl : S.length = Q.length) (hAl : A.length = Q.length)
+    (hS : ∀ s ∈ S, s < n)
+    (hnodup : ∀ k k', k < S.length → k' < S.length → S[k]? = S[k']? → A[k]? = A[k']? → k = k')
+    (d : SaDDP K) (hd : mkSa n beta R Q S A = .ok d)
+    (sigma : List Nat) (hsl : sigma.length = n)
+    (hsig : ∀ i, i < n → ∃ k, k < S.length ∧ S[k]? = some i ∧ A[k]? = some (sigma.getD i 0))
+    (v : List K) :
+    ∃ x, d.tSigma sigma v = some x ∧
+      ∀ i k, i < n → k < S.length → S[k]? = some i → A[k]? = some (sigma.getD i 0) →
+        x[i]? = some (givenVal beta R Q v k) := by
+  obtain ⟨R', Q', hrq, hl1, hl2, hrows⟩ :=
+    accepted_rqSigma_given' n beta R Q S A hR hSl hAl hS hnodup d hd sigma hsl hsig
+  have hbeta : d.beta = beta := by
+    rw [mkSa_ok_eq n beta R Q S A d hd]; exact arrangeSa_beta n beta R Q S A
+  refine ⟨tSigmaOf d.beta (R', Q') v, by unfold SaDDP.tSigma; rw [hrq]; rfl, ?_⟩
+  intro i k hi hk hSk hAk
+  obtain ⟨e1, e2⟩ := hrows i k hi hk hSk hAk
+  rw [tSigmaOf_getElem? d.beta R' Q' v i (by omega) (by omega), hbeta]
+  unfold givenVal
+  rw [List.getD_eq_getElem?_getD, List.getD_eq_getElem?_getD, e1, e2]
+  rfl
+
+end given
+
+/-- non-vacuity: three pairs over `ℤ` given as (0,0),(0,1),(1,0) — the hypotheses hold, the
+    constructor accepts, and in state 0 the given pair 1 (value 3 + 1·7 = 10) is the maximiser -/
+example : (mkSa 2 (1 : Int) [.fin 1, .fin 3, .fin 0] [[1, 0], [0, 1], [0, 1]] [0, 0, 1] [0, 1, 0]).toOption.map
+    (fun d => d.bellman [5, 7]) = some ([.fin 10, .fin 7], [1, 0]) := by decide
+example : givenVal (1 : Int) [.fin 1, .fin 3, .fin 0] [[1, 0], [0, 1], [0, 1]] [5, 7] 1 = .fin 10 := by decide
+
 /-! ## histories on one object -/
 
 section history
@@ -841,6 +915,85 @@ theorem accepted_backward_is_optimum (n : Nat) (beta : K) (R : List (Ext K)) (Q 
     obtain ⟨w, h1, h2, h3⟩ := backward_is_optimum d hf hdist hβ hQd T vT vs ss hb
     exact ⟨vs, ss, w, rfl, h1, h2, h3⟩
 
+
+
+/-- **the greedy policy attains the Bellman operator, in policy terms** (`compute_greedy` then
+    `T_sigma`): on a feasible SA instance whose states carry distinct actions, one period under
+    `σ_v = (bellman v).2` from `v` gives exactly `T v` — `T_{σ_v} v = T v`. -/
+theorem greedy_policy_attains_sa (d : SaDDP K) (hf : d.Feasible) (hdist : d.DistinctActions)
+    (v tv : List K) (hT : (d.bellman v).1 = tv.map Ext.fin) :
+    stepPolicy d (d.bellman v).2 v = some tv :=
+  greedy_step d hf hdist v tv hT
+
+/-- the same in product form (no distinctness needed) -/
+theorem greedy_policy_attains_prod (d : ProdDDP K) (hf : d.Feasible) (hn : d.n = d.R.length)
+    (v tv : List K) (hT : (d.bellman v).1 = tv.map Ext.fin) :
+    stepPolicyP d (d.bellman v).2 v = some tv :=
+  greedy_stepP d hf hn v tv hT
+
+/-- one period in product form: any policy step from `u ≤ v` is dominated by the Bellman step
+    from `v` (monotonicity of `T_σ` and `T_σ ≤ T`), `β ≥ 0`, `Q ≥ 0` -/
+theorem policy_step_le_bellman_prod (d : ProdDDP K) (hf : d.Feasible) (hn : d.n = d.R.length)
+    (hβ : 0 ≤ d.beta) (hQ : d.QNonneg) (sigma : List Nat) (u v u' tv : List K)
+    (huv : List.Forall₂ (· ≤ ·) u v) (hstep : stepPolicyP d sigma u = some u')
+    (hT : (d.bellman v).1 = tv.map Ext.fin) : List.Forall₂ (· ≤ ·) u' tv :=
+  step_le_bellmanP d hf hn hβ hQ sigma u v u' tv huv hstep hT
+
+/-- **backward_is_optimum, product form, every horizon and terminal value.** Feasible product
+    instance (`n = #rows`), `β ≥ 0`, non-negative transition probabilities. `vs[0]` of
+    `backward_induction(T, v_T)` is the value of the reported policy sequence (read from the last
+    period backwards) and dominates componentwise the value `T_{σ_0}(… T_{σ_{T-1}} v_T)` of every
+    sequence of `T` policies for which it is defined (`seqValueP`: actions `< m`, finite rewards).
+    No distinctness hypothesis is needed here: `RQ_sigma` indexes `R[s, σ[s]]` directly. -/
+theorem backward_is_optimum_prod (d : ProdDDP K) (hf : d.Feasible) (hn : d.n = d.R.length)
+    (hβ : 0 ≤ d.beta) (hQ : d.QNonneg) (T : Nat) (vT : List K)
+    (vs : List (List K)) (ss : List (List Nat))
+    (h : backwardInduction (DDP.prod d) T (some vT) = some (vs, ss)) :
+    ∃ w, vs[0]? = some w ∧ seqValueP d ss.reverse vT = some w ∧
+      ∀ (σs : List (List Nat)) (x : List K), σs.length = T →
+        seqValueP d σs vT = some x → List.Forall₂ (· ≤ ·) x w := by
+  unfold backwardInduction at h
+  simp only [Option.getD_some] at h
+  cases hb : backwardLoop (DDP.prod d) T vT with
+  | none => simp [hb] at h
+  | some p =>
+    obtain ⟨vs', ss'⟩ := p
+    simp only [hb, Option.map_some, Option.some.injEq, Prod.mk.injEq] at h
+    obtain ⟨rfl, rfl⟩ := h
+    obtain ⟨w, hw, hseq⟩ := backward_attainedP d hf hn T vT vs' ss' hb
+    refine ⟨w, hw, hseq, ?_⟩
+    intro σs x hT hx
+    subst hT
+    have hrefl : List.Forall₂ (· ≤ ·) vT vT :=
+      forall₂_of_getElem? _ _ _ rfl (fun i a c ha hc => by rw [ha] at hc; cases hc; exact le_refl _)
+    obtain ⟨w', hw', hle⟩ := seqValueP_le_backward d hf hn hβ hQ σs vT vT x vs' ss' hrefl hx hb
+    rw [hw] at hw'
+    cases hw'
+    exact hle
+
+/-- **… on every product-form instance the constructor accepts** (non-negative `Q`): all
+    hypotheses are about the given arrays; backward induction returns, and `vs[0]` is optimal. -/
+theorem accepted_backward_is_optimum_prod (beta : K) (R : List (List (Ext K))) (Q : List (List (List K)))
+    (hQ : ∀ qs ∈ Q, ∀ row ∈ qs, ∀ x ∈ row, (0 : K) ≤ x)
+    (d : ProdDDP K) (hd : mkProd beta R Q = .ok d) (T : Nat) (vT : List K) :
+    ∃ vs ss w, backwardInduction (DDP.prod d) T (some vT) = some (vs, ss) ∧
+      vs[0]? = some w ∧ seqValueP d ss.reverse vT = some w ∧
+      ∀ (σs : List (List Nat)) (x : List K), σs.length = T →
+        seqValueP d σs vT = some x → List.Forall₂ (· ≤ ·) x w := by
+  have hf := accepted_prod_feasible beta R Q d hd
+  have hde := mkProd_ok_eq beta R Q d hd
+  have hb := (mkProd_ok_beta beta R Q d hd).1
+  have hn : d.n = d.R.length := by rw [hde]
+  have hβ : 0 ≤ d.beta := by rw [hde]; exact hb
+  have hQd : d.QNonneg := by rw [hde]; exact hQ
+  have htot := prod_backward_total d hf T (some vT)
+  cases hbi : backwardInduction (DDP.prod d) T (some vT) with
+  | none => rw [hbi] at htot; cases htot
+  | some p =>
+    obtain ⟨vs, ss⟩ := p
+    obtain ⟨w, h1, h2, h3⟩ := backward_is_optimum_prod d hf hn hβ hQd T vT vs ss hbi
+    exact ⟨vs, ss, w, rfl, h1, h2, h3⟩
+
 end optimum
 
 /-- non-vacuity: `exSa` (β = 1, 0/1 transition rows) is feasible; the policy sequence
@@ -867,6 +1020,23 @@ example : exSa.DistinctActions := by
     have a2 : exSa.aIndptr.getD (1 + 1) 0 = 3 := by decide
     rw [a1] at h1 h3; rw [a2] at h2 h4
     omega
+
+
+/-- non-vacuity (product form, `ℤ`, β = 1): the constructor accepts `exProd3`, the policy sequence
+    `[[1,0],[0,1]]` has a defined value, and backward induction dominates it -/
+def exProd3R : List (List (Ext Int)) := [[.fin 1, .fin 2], [.fin 0, .ninf]]
+def exProd3Q : List (List (List Int)) := [[[1, 0], [0, 1]], [[0, 1], [1, 0]]]
+example : (mkProd (1 : Int) exProd3R exProd3Q).toOption.map (fun d => (d.n, d.m)) = some (2, 2) := by decide
+example : ∀ qs ∈ exProd3Q, ∀ row ∈ qs, ∀ x ∈ row, (0 : Int) ≤ x := by decide
+example : (mkProd (1 : Int) exProd3R exProd3Q).toOption.bind (fun d => seqValueP d [[1, 0], [0, 0]] [0, 0])
+    = some [3, 0] := by decide
+example : (mkProd (1 : Int) exProd3R exProd3Q).toOption.bind
+    (fun d => (backwardInduction (DDP.prod d) 2 (some [0, 0])).map (fun r => (r.1[0]?, r.2)))
+    = some (some [3, 0], [[0, 0], [1, 0]]) := by decide
+
+example : stepPolicy exSa (exSa.bellman [5, 7]).2 [5, 7] = some [6, 7] := by decide
+example : (mkProd (1 : Int) exProd3R exProd3Q).toOption.bind
+    (fun d => stepPolicyP d (d.bellman [0, 0]).2 [0, 0]) = some [2, 0] := by decide
 
 example : backwardInduction (DDP.sa exSa) 2 none
     = some ([[2, 0], [1, 0], [0, 0]], [[0, 0], [0, 0]]) := by decide
